@@ -60,6 +60,7 @@ type c05w struct {
 	bDom     []int64
 	fDom     []int64
 	boolFlds []*types.Var // the bool fields of Function (Macro)
+	byObj    map[*types.Func]*FuncInfo
 	name     map[int64]string
 }
 
@@ -146,6 +147,44 @@ func (w *c05w) roles(fi *FuncInfo, side string) *c05wFn {
 		}
 		return true
 	})
+	// the called function made current through a helper: vm.enter(fn, …) where enter assigns its parameter to
+	// the VM's current function. The argument is an identifier, or an expression a local is defined as
+	// (fn := f.fn; vm.enter(f.fn, …)).
+	for _, c := range calls(fi.Decl.Body, true) {
+		h := w.byObj[callee(info, c)]
+		if h == nil || h.Obj == fi.Obj {
+			continue
+		}
+		hinfo := h.Pkg.TypesInfo
+		ps := h.Obj.Type().(*types.Signature).Params()
+		for i := 0; i < ps.Len() && i < len(c.Args); i++ {
+			p := ps.At(i)
+			sets := false
+			ast.Inspect(h.Decl.Body, func(m ast.Node) bool {
+				if as, ok := m.(*ast.AssignStmt); ok && len(as.Lhs) == len(as.Rhs) {
+					for k, l := range as.Lhs {
+						if sel, ok := ast.Unparen(l).(*ast.SelectorExpr); ok && w.fieldOf(hinfo, sel) == w.fnField && objOfIdent(hinfo, as.Rhs[k]) == p {
+							sets = true
+						}
+					}
+				}
+				return true
+			})
+			if !sets {
+				continue
+			}
+			if o := objOfIdent(info, c.Args[i]); o != nil {
+				fr.callee[o] = true
+				continue
+			}
+			want := exprStr(c.Args[i])
+			for o, ds := range fr.defs {
+				if len(ds) == 1 && ds[0] != nil && exprStr(ds[0]) == want {
+					fr.callee[o] = true
+				}
+			}
+		}
+	}
 	return fr
 }
 
@@ -285,26 +324,49 @@ func (w *c05w) truth(fr *c05wFn, e ast.Expr, env c05wEnv) int {
 	return -1
 }
 
+// mentionsFormat reports whether e involves a format: an expression of type ast.Format, the format operand or
+// the ReturnString constant.
+func (w *c05w) mentionsFormat(fr *c05wFn, e ast.Expr) bool {
+	info := fr.fi.Pkg.TypesInfo
+	hit := false
+	ast.Inspect(e, func(m ast.Node) bool {
+		if x, ok := m.(ast.Expr); ok && !hit {
+			if tv, ok := info.Types[x]; ok && !tv.IsType() && tv.Type != nil && types.Identical(tv.Type, w.formatT) {
+				hit = true
+			}
+			if id, ok := x.(*ast.Ident); ok {
+				if o := info.Uses[id]; o != nil && (fr.bLike[o] || o == w.retStr) {
+					hit = true
+				}
+			}
+		}
+		return !hit
+	})
+	return hit
+}
+
 // feasible reports whether node site of fr's function can be reached under env: edges carrying a conjunct
-// that is definitely false are cut.
+// that is definitely false are cut. A conjunct on a format that cannot be evaluated (the rule does not know
+// whose format it is) also cuts the edge: the state is then not SHOWN feasible, and nothing is reported
+// from it.
 func (w *c05w) feasible(fr *c05wFn, site ast.Node, env c05wEnv) bool {
 	g := w.r.P.CFGOf(fr.fi)
 	blk, _ := g.Locate(site)
 	if blk == nil {
-		return true
+		return false
 	}
 	litFalse := func(l Lit) bool {
 		if l.Tag != nil {
 			a, ok1 := w.value(fr, l.Tag, env)
 			b, ok2 := w.value(fr, l.Expr, env)
 			if !ok1 || !ok2 {
-				return false
+				return w.mentionsFormat(fr, l.Tag) || w.mentionsFormat(fr, l.Expr)
 			}
 			return (a == b) != l.Truth
 		}
 		t := w.truth(fr, l.Expr, env)
 		if t < 0 {
-			return false
+			return w.mentionsFormat(fr, l.Expr)
 		}
 		return (t == 1) != l.Truth
 	}
@@ -400,6 +462,7 @@ func c05RendererWriter(r *Run) {
 			byObj[fi.Obj] = fi
 		}
 	}
+	w.byObj = byObj
 	loop := c05InterpreterLoop(r, fns)
 	if !r.Anchor(R, "interpreter loop", loop != nil) {
 		return
@@ -430,6 +493,13 @@ func c05RendererWriter(r *Run) {
 		}
 		if c, ok := e.(*ast.CallExpr); ok && isBuiltinCall(info, c, "new") && len(c.Args) == 1 {
 			return typeStr(info.TypeOf(c.Args[0]))
+		}
+		// any expression whose static type is a pointer to a concrete named type (&local, a constructor
+		// helper): the dynamic type of the writer is that type, which is all the assertion depends on
+		if p, ok := info.TypeOf(e).(*types.Pointer); ok {
+			if nt, ok := p.Elem().(*types.Named); ok && !types.IsInterface(nt) {
+				return typeStr(nt)
+			}
 		}
 		return ""
 	}
@@ -660,10 +730,16 @@ func c05RendererWriter(r *Run) {
 					if l.Tag != nil {
 						a, ok1 := w.value(fr, l.Tag, env)
 						b, ok2 := w.value(fr, l.Expr, env)
-						return ok1 && ok2 && (a == b) != l.Truth
+						if !ok1 || !ok2 {
+							return w.mentionsFormat(fr, l.Tag) || w.mentionsFormat(fr, l.Expr)
+						}
+						return (a == b) != l.Truth
 					}
 					t := w.truth(fr, l.Expr, env)
-					return t >= 0 && (t == 1) != l.Truth
+					if t < 0 {
+						return w.mentionsFormat(fr, l.Expr)
+					}
+					return (t == 1) != l.Truth
 				}
 				for _, h := range handlers {
 					if len(h.clause.Body) == 0 || h.enter == nil {
@@ -747,7 +823,7 @@ func c05RendererWriter(r *Run) {
 			case bad != "":
 				o.Bad("%s: the assertion fails with a *runtime.TypeAssertionError raised by the VM itself, which the panic classifier does not know, so Run panics in the host (e.g. {{ render \"x.md\" }} in a text, JS, CSS or JSON file)", bad)
 			case reach == 0:
-				o.Unknown("the assertion to *%s is reachable for none of the %d states (format operand, callee format, callee flags): the conditions around it could not be read", T, pairs)
+				o.Trivial("not decided: the assertion to *%s is shown reachable for none of the %d states (format operand, callee format, callee flags) — its conditions on the formats could not be evaluated", T, pairs)
 			default:
 				how := "guarded by the renderer-changed test"
 				if !guarded {
